@@ -1394,6 +1394,14 @@ func (g *gen) execSweep(arch string, d opDef) {
 func (g *gen) memPatterns(arch string, d opDef, twins bool) {
 	emit := func(c *Case) {
 		c.Tag = "addr"
+		if dl, ok := c.Ops["d"]; twins && ok && dl.C >= 256 {
+			// the old destination contents take part in the permutation
+			for i := 0; i < dl.N; i++ {
+				if _, set := c.V[dl.C-256+i]; !set {
+					g.setV(c, dl.C-256+i, 32, g.randLanes(32, 'i'))
+				}
+			}
+		}
 		g.cases = append(g.cases, c)
 		if twins {
 			perm := g.r.Perm(nLane)
